@@ -74,7 +74,7 @@ func StrictIntLogicalLeftBitshift[T StrictInt](left T, right Value, shiftFunc lo
 			if r.IsSmallInt() {
 				rSmall := r.ToSmallInt()
 				if rSmall < 0 {
-					return left >> -rSmall, Undefined
+					return shiftFunc(left, uint64(-rSmall)), Undefined
 				}
 				return left << rSmall, Undefined
 			}
